@@ -71,7 +71,9 @@ func (g G) refSchema(paths []string, pi int, simple bool) m.BodyM {
 	// locals: any attribute, addressable as expression type
 	root.Blocks["locals"] = m.BlockM{
 		Body: &m.BodyM{AnyAttr: &m.AttrM{Flag: "optional", Cons: anyOf(cty.DynamicPseudoType),
-			Addr: &m.AttrAddrM{Steps: []m.StepM{{K: "static", Name: "local"}, {K: "attrname"}}, Scope: "local", AsExprType: true, AsReference: g.Chance(25)}}},
+			Addr: &m.AttrAddrM{Steps: []m.StepM{{K: "static", Name: "local"}, {K: "attrname"}}, Scope: "local", AsExprType: true, AsReference: g.Chance(25)}},
+			// free-form attributes and a declared block side by side in one body
+			Blocks: map[string]m.BlockM{"meta": {Body: &m.BodyM{Attrs: map[string]m.AttrM{"note": {Flag: "optional", Cons: anyOf(cty.String)}}}}}},
 	}
 	// resource "TYPE" "NAME": body as data, inferred, self refs, count / for_each, nested blocks
 	resBody := m.BodyM{
@@ -81,6 +83,7 @@ func (g G) refSchema(paths []string, pi int, simple bool) m.BodyM {
 			"tags": {Flag: "optional", Cons: anyOf(cty.Map(cty.String))},
 			"dep":  {Flag: "optional", Cons: m.ConsM{K: "list", Elem: &m.ConsM{K: "ref", Scope: "resource"}}},
 			"any":  {Flag: "optional", Cons: anyOf(cty.DynamicPseudoType)},
+			"note": {Flag: "optional", Cons: anyOf(cty.String)},
 		},
 		Blocks: map[string]m.BlockM{
 			"disk": {Type: Pick(g, []string{"list", "set", "object"}), Body: &m.BodyM{Attrs: map[string]m.AttrM{
@@ -162,7 +165,7 @@ func (g G) refAddr(simple bool) string {
 		// block-local names are far more common inside a resource body
 		return Pick(g, []string{"count.index", "each.key", "each.value", "self.name", "self.size", "self.ami", "self"})
 	}
-	switch g.Weighted(22, 12, 14, 10, 8, 8, 6, 6, 6, 4, 4) {
+	switch g.Weighted(20, 11, 13, 16, 8, 8, 6, 6, 6, 4, 4) {
 	case 0:
 		return "var." + n
 	case 1:
@@ -170,6 +173,10 @@ func (g G) refAddr(simple bool) string {
 	case 2:
 		return Pick(g, refTypes) + "." + n
 	case 3:
+		if !simple && g.Chance(45) {
+			// declarations two and three levels below the resource
+			return Pick(g, refTypes) + "." + n + "." + Pick(g, []string{"disk[0]", "disk[1]", "disk[0].gb", "disk[1].path", "conn.host", `tags["k"]`, "disk[1].gb"})
+		}
 		return Pick(g, refTypes) + "." + n + "." + Pick(g, []string{"name", "size", "tags", "ami", "aws_id", "disk", "conn", "missing"})
 	case 4:
 		return "data." + n + Pick(g, []string{"", ".x", ".x.y"})
@@ -293,9 +300,16 @@ func (g G) refConfig(root m.BodyM, paths []string, pi int, simple bool) string {
 		if g.Chance(30) {
 			fmt.Fprintf(&sb, "  dep = [%s]%s", Pick(g, refTypes)+"."+Pick(g, refNames), nl)
 		}
-		nd := g.Int(0, 2)
+		nd := g.Int(0, 3)
+		if nd == 3 {
+			nd = 2
+		}
 		for i := 0; i < nd; i++ {
 			fmt.Fprintf(&sb, "  disk {%s    gb = %s%s    path = %s%s  }%s", nl, Pick(g, []string{"10", g.refExpr(simple)}), nl, Pick(g, []string{`"/"`, g.refExpr(simple)}), nl, nl)
+			if i == 0 && nd > 1 && g.Chance(60) {
+				// blocks of one type need not follow each other
+				fmt.Fprintf(&sb, "  note = %s%s", Pick(g, []string{`"n"`, g.refExpr(simple)}), nl)
+			}
 		}
 		if g.Chance(30) {
 			fmt.Fprintf(&sb, "  conn {%s    host = %s%s  }%s", nl, Pick(g, []string{"self.name", "self.ami", `"h"`, g.refExpr(simple)}), nl, nl)
